@@ -215,6 +215,7 @@ CHECKS["C17"] = {
         J("roundtrip", "c17", "TestRoundTrip", 4000, 150000, 12),
         J("literal", "c17", "TestLiteral", 2500, 60000, 4),
         J("crosstype", "c17", "TestCrossType", 1200, 30000, 4),
+        J("known", "c17", "TestKnownAnyNumberKind", None, None),
     ],
     "assumptions": [
         "strings containing the placeholder / expression delimiters ${ and #{ are not generated: configured values containing placeholders are resolved by design (C16)",
